@@ -10,6 +10,13 @@ def _dims(c, p=0.5, maxd=3):
   return [c.choice([1, 2, 3]) for _ in range(c.randint(1, maxd))]
 
 
+def _prod(dims):
+  n = 1
+  for d in dims:
+    n *= d
+  return n
+
+
 def _wrap(expr, dims):
   for d in reversed(dims):
     expr = "[%s for _ in range(%d)]" % (expr, d)
@@ -88,10 +95,13 @@ def gen(c, uid):
 
   # interface classes; member names deliberately include prefix pairs and names that look like indices
   ifcs = []
+  isize = {}        # interface class -> approximate number of named objects in one instance
+  csize = {}        # component class -> the same (bounds the size of the generated hierarchy)
   feedable = []     # interface classes made of InPorts only (they can be passed down from the top-level inputs)
   for i in range(c.randint(1, 4)):
     name = "If%d_%s" % (i, uid)
     body = []
+    isz = 1
     feed = i == 0 or c.random() < 0.4
     pool = ["msg", "msg2", "val", "rdy", "en", "d", "d0", "dd", "q", "resp", "r"]
     c.shuffle(pool)
@@ -101,12 +111,15 @@ def gen(c, uid):
       dims = _dims(c, 0.4, 2)
       body.append("s.%s = %s" % (pool[k], _wrap("%s(%s)" % ("InPort" if feed else c.choice(["InPort", "OutPort"]), t), dims)))
       stats["struct_ports_in_ifc"] += 1 if is_st else 0
+      isz += _prod(dims)
       k += 1
     inner = feedable if feed else ifcs
     if inner and c.random() < 0.6:
       for _ in range(c.randint(1, 2)):
         dims = _dims(c, 0.5, 2)
-        body.append("s.%s = %s" % (pool[k], _wrap("%s()" % c.choice(inner), dims)))
+        ni = c.choice(inner)
+        body.append("s.%s = %s" % (pool[k], _wrap("%s()" % ni, dims)))
+        isz += _prod(dims) * isize[ni]
         stats["nested_ifcs"] += 1
         k += 1
     if feed:
@@ -120,6 +133,7 @@ def gen(c, uid):
     L.extend("    " + b for b in body)
     L.append("")
     ifcs.append(name)
+    isize[name] = isz + 1
     stats["ifc_classes"] += 1
 
   comps = []
@@ -134,13 +148,19 @@ def gen(c, uid):
     c.shuffle(pool)
     k = 0
     mine = []
+    mysz = 3
     for _ in range(c.randint(1, 3)):
       t, _st = sigtype()
-      body.append("s.%s = %s" % (pool[k], _wrap("%s(%s)" % (c.choice(["InPort", "OutPort", "Wire"]), t), _dims(c, 0.4, 3))))
+      sd_ = _dims(c, 0.4, 3)
+      body.append("s.%s = %s" % (pool[k], _wrap("%s(%s)" % (c.choice(["InPort", "OutPort", "Wire"]), t), sd_)))
+      mysz += _prod(sd_)
       k += 1
     for _ in range(c.randint(1, 3)):
       ic = c.choice(ifcs)
       dims = _dims(c, 0.6, 3)
+      while dims and _prod(dims) * isize[ic] > 300:
+        dims = dims[:-1]
+      mysz += _prod(dims) * isize[ic]
       fed = ic in feedable and c.random() < 0.7
       inv = False      # Interface.inverse() is broken at this commit (F31, probed by C09): not used here
       body.append("s.%s = %s" % (pool[k], _wrap("%s()%s" % (ic, ".inverse()" if inv else ""), dims)))
@@ -177,6 +197,13 @@ def gen(c, uid):
         dims = _dims(c, 0.6, 3)
         if len(needs.get(cc, [])) * max(1, len(dims)) > 6:
           dims = dims[:1]
+        # bound the hierarchy: about 1500 named objects per component class at most
+        per = csize[cc] + sum(_prod(d) * isize[ic] for (mn, ic, d) in needs.get(cc, []))
+        while dims and _prod(dims) * per > 600:
+          dims = dims[:-1]
+        if mysz + _prod(dims) * per > 1500:
+          continue
+        mysz += _prod(dims) * per
         sub = pool[k]
         k += 1
         body.append("s.%s = %s" % (sub, _wrap("%s()" % cc, dims)))
@@ -208,5 +235,6 @@ def gen(c, uid):
       stats["method_ports"] += 1
     L.append("")
     comps.append(name)
+    csize[name] = mysz
     stats["comp_classes"] += 1
   return "\n".join(L) + "\n", stats
